@@ -235,3 +235,23 @@ def fault_oracle(res, sw):
                 if res.violation("%s: %s" % (label, why), sc.text() + "\n# " + why, key="fault-ok:%s:%s" % (o.name, kind)): n += 1
                 break
     return n, checked
+
+def fill_oracle(res, cases, exe, fills=(0x00, 0xFF, 0xA5, 0x04)):
+    """C11: the same scenario under allocators that pre-fill fresh memory differently must give the same transcript (L1)"""
+    runs = []
+    for f in fills:
+        runs.append(scenario.run_scenarios(exe, [c.scn.with_prefix("fill %d" % f) for c in cases], timeout_each=20))
+    n = 0
+    for j, c in enumerate(cases):
+        ts = [r[j] for r in runs]
+        if any(t.crash or t.hang for t in ts): continue
+        base = ts[0].l1()
+        for f, t in zip(fills[1:], ts[1:]):
+            if t.l1() != base:
+                d = next(((a, b) for a, b in zip(base, t.l1()) if a != b), None)
+                what = "%s: status/output differs between allocator fill 0x%02x and 0x%02x (%s st=%s len=%s vs st=%s len=%s)" % (
+                    c.label, fills[0], f, d[0][0] if d else "?", d[0][1] if d else "?", d[0][6] if d else "?", d[1][1] if d else "?", d[1][6] if d else "?")
+                if res.violation(what, c.scn.text() + "\n# " + what, key="fill:" + c.label.split(":")[0] + ":" + c.label.split(":")[1] if c.label.startswith("uninit:") else "fill:" + c.fmt): n += 1
+                break
+    res.evaluations += len(cases) * len(fills)
+    return n
